@@ -199,6 +199,13 @@ package standard
 //@   ensures result == (in(s.pendingAttestations, slot) && s.pendingAttestations[slot])
 //@   modifies nothing
 //@
+//@ // the wall-clock epoch is (now - genesis) / (slot duration * slots per epoch): far below 2^62 for any clock
+//@ func (*Service).handlePreviousDependentRootChanged
+//@   assumes call CurrentEpoch (e): e <= 4611686018427387904
+//@
+//@ func (*Service).handleCurrentDependentRootChanged
+//@   assumes call CurrentEpoch (e): e <= 4611686018427387904
+//@
 //@ func (*Service).refreshAttesterDutiesForEpoch
 //@   requires nolocks() && epoch <= 9223372036854775807
 //@   // a withdrawn job's slot is no longer pending, before anything is set up again
